@@ -30,7 +30,7 @@ res = {}
 if ap2.returncode == 0:
     for p in [prop] + extra:
         t0 = time.time()
-        r = sh(f"cd /verif && VERIF_REPO={wt} VERIF_NPROC=5 ./vcheck {p} quick")
+        r = sh(f"cd /verif && VERIF_REPO={wt} VERIF_NPROC=8 ./vcheck {p} quick")
         lines = [l for l in r.stdout.splitlines() if l.startswith("VIOLATION")]
         res[p] = {"exit": r.returncode, "violation_lines": len(lines), "first": (lines[0][:200] if lines else ""), "summary": r.stdout.strip().splitlines()[-1][:200] if r.stdout.strip() else "", "wall_s": round(time.time() - t0, 1)}
     sh(f"git -C {wt} checkout -- src")
